@@ -3,6 +3,7 @@ package checks
 import (
 	"fmt"
 	"os"
+	"regexp"
 	"runtime"
 	"strings"
 	"sync"
@@ -195,7 +196,7 @@ func c03(c *vc.Ctx) {
 	skipN := 0 // development aid: skip the first N cases of the enumeration
 	fmt.Sscan(os.Getenv("VERIF_C03_SKIP_CASES"), &skipN)
 	dry := os.Getenv("VERIF_C03_DRY") != "" // development aid: enumerate and print only
-	complete := vc.RunBatch(c, 16, func(emit func(c03Case)) {
+	complete := vc.RunBatch(c, 8, func(emit func(c03Case)) {
 		n := 0
 		c03Gen(c, func(t c03Case) {
 			if n++; n > skipN {
@@ -230,6 +231,8 @@ type c03OrigCache struct {
 	src  string
 	orig *c03Orig
 }
+
+var c03BashSyntaxError = regexp.MustCompile(`syntax error near unexpected token|syntax error: unexpected end of file|unexpected EOF while looking for matching`)
 
 // global caches for generated programs, keyed by text
 var (
@@ -274,6 +277,12 @@ func c03Original(c *vc.Ctx, t c03Case, slot string, cache bool) *c03Orig {
 	c.Count("bash_runs", 1)
 	if o.bash.Flag != "" {
 		o.skip = "skipped_original_bash_" + strings.SplitN(o.bash.Flag, ":", 2)[0]
+		return o
+	}
+	if c03BashSyntaxError.MatchString(o.bash.errOut) {
+		// bash itself cannot parse the original (e.g. a here-document inside
+		// `$( ( … ); …)`, which bash 5.2 rejects): not a runnable program
+		o.skip = "skipped_original_is_a_bash_syntax_error"
 		return o
 	}
 	if tools {
